@@ -73,10 +73,10 @@ def report(w, path, body):
 def make_book(w, path, cards):
     from . import gamma
     r = w.request("MKCOL", path, [("Content-Type", "text/xml")], gamma.mkcol_body("addressbook"))
-    assert r.status == 201, r
+    assert r.status in range(200, 300), r
     for i, c in enumerate(cards):
         r = w.request("PUT", path + "c%04d.vcf" % i, [("Content-Type", "text/vcard")], vcard(c, "card-%d" % i))
-        assert r.status in (201, 204), (r.status, r.body[:300], vcard(c, "x"))
+        assert r.status in range(200, 300), (r.status, r.body[:300], vcard(c, "x"))
 
 
 def run_table_a(values, table, frontend="wsgi", ascii_only=False):
